@@ -10,6 +10,7 @@ import (
 	"math"
 	"math/rand"
 
+	"verifharness/c05lib"
 	. "verifharness/hlib"
 
 	"github.com/henrylee2cn/erpc/v6/socket"
@@ -357,14 +358,73 @@ func main() {
 	r := cfg.Rng
 	gz := RegTestFilters()
 	st := NewStats("C05", cfg)
-	st.Rule = "raw protocol: (a) pack/unpack of generated messages (all byte values in method/meta/status/body; lengths 0,1,255,256,~65535; seq extremes; pipes over xor/rev/lenp/md5/gzip) under a size limit, unpacked through 3 chunkings; (b) streams of 1-6 back-to-back frames; (c) hostile streams = valid frames with byte flips / truncation / rewritten length fields, and random bytes. distinct by input bytes; non-trivial = non-empty method or meta or body or a failure class"
+	st.Rule = "raw protocol: (a) pack/unpack of generated messages (all byte values in method/meta/status/body; lengths 0,1,255,256,~65535; seq extremes; pipes over xor/rev/lenp/md5/gzip) under a size limit, unpacked through 3 chunkings; (b) streams of 1-6 back-to-back frames; (c) hostile streams = valid frames with byte flips / truncation / rewritten length fields, and random bytes; (d) cross: 1-3 Packs and 1-3 Unpacks on ONE protocol instance over a connection whose every Write and Read is gated by the harness, interleaved by a random schedule (oracle: every frame written, every size reported, every frame decoded equals the quiet-connection reference). distinct by input bytes; non-trivial = non-empty method or meta or body or a failure class"
 	w := NewCaseWriter(cfg)
 	distinct := DistinctSet{}
 	const bigLim = 1 << 24
 	for i := 0; i < cfg.N; i++ {
 		gz.ResetTab()
-		mode := r.Intn(10)
+		mode := r.Intn(11)
 		switch {
+		case mode >= 10: // Packs and Unpacks of ONE protocol instance under a forced interleaving
+			st.Count("mode:cross")
+			socket.SetMessageSizeLimit(bigLim)
+			genSmall := func() (*genMsg, []byte) {
+				g := genMessage(r, st)
+				if len(g.method) > 255 {
+					g.method = g.method[:255]
+				}
+				if len(g.msg) > 1000 {
+					g.msg = g.msg[:1000]
+				}
+				var m2 [][2][]byte
+				for _, p := range g.meta {
+					if len(p[1]) < 1000 {
+						m2 = append(m2, p)
+					}
+				}
+				g.meta = m2
+				return g, genIdsNoGz(r)
+			}
+			spec := &c05lib.XSpec{Name: "raw", PF: socket.RawProtoFunc}
+			var all []byte
+			for j, k := 0, 1+r.Intn(3); j < k; j++ {
+				g, ids := genSmall()
+				out, ok, _ := packOne(g, ids)
+				if !ok {
+					continue
+				}
+				if fr, end, _ := decodeStream([][]byte{append([]byte(nil), out...)}); len(fr) != 1 || end != "sok" {
+					continue
+				}
+				spec.Frames = append(spec.Frames, out)
+				all = append(all, out...)
+			}
+			for j, k := 0, 1+r.Intn(3); j < k; j++ {
+				og, oids := genSmall()
+				spec.Out = append(spec.Out, func() socket.Message {
+					m := socket.NewMessage(og.settings(oids)...)
+					m.SetSeq(og.seq)
+					m.SetMtype(og.mtype)
+					return m
+				})
+			}
+			x, _ := spec.Run(r, st, i)
+			obs := VL(VL(), "sfail")
+			if x.OK {
+				var fr []string
+				end := "sok"
+				for _, o := range x.Unp {
+					if o == "sfail" {
+						end = "sfail"
+						break
+					}
+					fr = append(fr, o)
+				}
+				obs = VL(VL(fr...), end)
+			}
+			w.Add(VL(VS("stream"), VN(bigLim), gz.TabVal(), VB(all)), obs)
+			distinct.Add(fmt.Sprintf("cross bytes=%x %s", all, x.Sched))
 		case mode < 5: // pack + unpack
 			st.Count("mode:pack")
 			g := genMessage(r, st)
